@@ -199,7 +199,11 @@ func (c *Ctx) StructOf(t types.Type) *StructInfo {
 	c.structs[key] = si
 	for i := 0; i < st.NumFields(); i++ {
 		f := st.Field(i)
-		si.Fields = append(si.Fields, StructField{Name: f.Name(), Sort: c.SortOf(f.Type()), Go: f.Type()})
+		name := f.Name()
+		if name == "_" {
+			name = fmt.Sprintf("_blank%d", i) // blank fields (sync/atomic's noCopy/align64) need distinct accessor names
+		}
+		si.Fields = append(si.Fields, StructField{Name: name, Sort: c.SortOf(f.Type()), Go: f.Type()})
 	}
 	c.structOrder = append(c.structOrder, si) // dependencies were appended first by the recursion above
 	return si
@@ -606,4 +610,10 @@ func ssautilAll(c *Ctx) map[*ssa.Function]bool {
 		c.allFuncs = ssautil.AllFunctions(c.Prog)
 	}
 	return c.allFuncs
+}
+
+// heapSort returns the declared sort of a heap.
+func (c *Ctx) heapSort(name string) (string, bool) {
+	s, ok := c.heapDecls[name]
+	return s, ok
 }
